@@ -84,6 +84,42 @@ Definition mask_addr (o : opts) (a : lim_addr) : lim_addr :=
   | LANone => LANone
   end.
 
+(* ------------------------------------------------------------------ the router's configuration mapping *)
+
+(* app/router/config.go  LimiterConfig{GlobalLimit, Client: ClientLimiterConfig{Limit, Burst, V4Mask, V6Mask}}:
+   yaml ints, 0 = omitted.  A record of its own (not [opts]) so that the field-by-field mapping of
+   initResourceLimiter is a modelled function and not an identity. *)
+Record lim_config := mkLimCfg { lc_global : Z; lc_limit : Z; lc_burst : Z; lc_v4 : Z; lc_v6 : Z }.
+
+(* the ClientLimiterOpts literal initResourceLimiter builds from the configuration
+   (Limit: float64(cfg.Client.Limit), Burst: cfg.Client.Burst, V4Mask: cfg.Client.V4Mask, V6Mask: cfg.Client.V6Mask) *)
+Definition cfg_opts (c : lim_config) : opts := mkOpts (lc_limit c) (lc_burst c) (lc_v4 c) (lc_v6 c).
+
+(* initResourceLimiter + NewClientLimiter (setDefault): the effective options of the router's client limiter;
+   None = no client limiter (limiter.client.limit <= 0) *)
+Definition cfg_client (c : lim_config) : option opts := init_client (cfg_opts c).
+
+(* the global bucket: rate = burst = global_limit, only when > 0 *)
+Definition cfg_global (c : lim_config) : option Z := if 0 <? lc_global c then Some (lc_global c) else None.
+
+(* the prefix length the PROPERTY assigns to each family under a configuration: the configured mask of that
+   family, /24 resp. /48 when it is omitted (0) or not a prefix length of the family *)
+Definition cfg_mask4 (c : lim_config) : Z := if (1 <=? lc_v4 c) && (lc_v4 c <=? 32) then lc_v4 c else 24.
+Definition cfg_mask6 (c : lim_config) : Z := if (1 <=? lc_v6 c) && (lc_v6 c <=? 128) then lc_v6 c else 48.
+
+(* the property's subnet of a client under a configuration: the address (a v4-mapped one as the IPv4 address)
+   truncated to the configured mask of ITS family; arithmetic definition, independent of mask_bits/prefix_addr *)
+Definition cfg_subnet (c : lim_config) (a : lim_addr) : lim_addr :=
+  match lim_unmap a with
+  | LA4 x => LA4 (x / 2 ^ (32 - Z.to_N (cfg_mask4 c)) * 2 ^ (32 - Z.to_N (cfg_mask4 c)))%N
+  | LA6 x => LA6 (x / 2 ^ (128 - Z.to_N (cfg_mask6 c)) * 2 ^ (128 - Z.to_N (cfg_mask6 c)))%N
+  | LANone => LANone
+  end.
+
+(* the key the router's limiter charges a client to (None = no client limiter) *)
+Definition cfg_key (c : lim_config) (a : lim_addr) : option lim_addr :=
+  match cfg_client c with Some o => Some (mask_addr o a) | None => None end.
+
 (* ------------------------------------------------------------------ one bucket *)
 
 (* e{l: *rate.Limiter, lastSeen}: tok = l.tokens * 10^9, last = l.last, seen = lastSeen *)
@@ -126,9 +162,16 @@ Definition lim_remove (k : lim_addr) (t : lim_table) : lim_table :=
 
 Definition lim_upsert (k : lim_addr) (b : bucket) (t : lim_table) : lim_table := (k, b) :: lim_remove k t.
 
-(* gc at time now: lastSeen.Before(now - entryTtl) -> delete *)
+(* gc at time now: an entry is deleted when it is idle (lastSeen.Before(now - entryTtl)) AND its bucket has refilled
+   completely at now (l.TokensAt(now) >= burst): forgetting such an entry loses nothing, the bucket created at the
+   subnet's next arrival is full as well.  (Before the K3 repair idleness alone decided, and with burst > 60*rate a
+   subnet got a second burst after a minute of silence.) *)
 Definition lim_expired (now : Z) (b : bucket) : bool := b_seen b <? now - entry_ttl.
-Definition lim_gc (now : Z) (t : lim_table) : lim_table := filter (fun e => negb (lim_expired now (snd e))) t.
+Definition lim_full (o : opts) (now : Z) (b : bucket) : bool :=
+  o_burst o * SCALE <=? lim_advance (o_limit o) (o_burst o) b now.
+Definition lim_collect (o : opts) (now : Z) (b : bucket) : bool := lim_expired now b && lim_full o now b.
+Definition lim_gc (o : opts) (now : Z) (t : lim_table) : lim_table :=
+  filter (fun e => negb (lim_collect o now (snd e))) t.
 
 (* ------------------------------------------------------------------ histories *)
 
@@ -147,7 +190,7 @@ Definition lim_step (o : opts) (t : lim_table) (e : lev) : lim_table * option bo
       let k := mask_addr o a in
       let r := allow_bucket (o_limit o) (o_burst o) (lim_bucket_of o k t now) now n in
       (lim_upsert k (snd r) t, Some (fst r))
-  | EvGc now => (lim_gc now t, None)
+  | EvGc now => (lim_gc o now t, None)
   end.
 
 (* margin of an arrival in the current state (for the comparison's epsilon band); None for gc and for n > burst *)
@@ -275,6 +318,28 @@ Definition rl_allow (r : rl) (now : Z) (a : lim_addr) (n : Z) : rl * rl_res :=
       end
     else (mkRl (fst g) (rl_client r), RlGlobal)
   end.
+
+(* the resourceLimiter the router builds from its configuration at time [now] *)
+Definition rl_of_config (c : lim_config) (now : Z) : rl := rl_init (lc_global c) now (cfg_opts c).
+
+(* a run of arrivals (time, client address, cost) through router.limiterAllowN *)
+Definition rl_arrival := (Z * lim_addr * Z)%type.
+Fixpoint rl_decisions (r : rl) (h : list rl_arrival) : list rl_res :=
+  match h with
+  | [] => []
+  | (now, a, n) :: h' => snd (rl_allow r now a n) :: rl_decisions (fst (rl_allow r now a n)) h'
+  end.
+
+(* the results seen by the clients of subnet k (subnets as the property defines them: cfg_subnet) *)
+Fixpoint rl_results_for (c : lim_config) (k : lim_addr) (h : list rl_arrival) (ds : list rl_res) : list rl_res :=
+  match h, ds with
+  | (_, a, _) :: h', d :: ds' =>
+      if addr_eqb (cfg_subnet c a) k then d :: rl_results_for c k h' ds' else rl_results_for c k h' ds'
+  | _, _ => []
+  end.
+
+Definition rl_from_subnet (c : lim_config) (k : lim_addr) (e : rl_arrival) : bool :=
+  addr_eqb (cfg_subnet c (snd (fst e))) k.
 
 (* what a client observes *)
 Inductive lim_outcome :=
